@@ -188,11 +188,14 @@ def run(case, ctx):
                for v in c['cells']):
             out.label('sqlite:text-with-NUL')
     out.label('source:' + source)
+    def numeral(nm):
+        # (canonical numerals only: '00' and '0' would be one label)
+        return nm.isdigit() and nm.isascii() and str(int(nm)) == nm
     int_labels = (source == 'df' and desc['n'] % 2 == 0 and any(
-        c['name'].isdigit() and c['name'].isascii() for c in desc['cols']))
+        numeral(c['name']) for c in desc['cols']))
 
     def label_of(c):
-        if int_labels and c['name'].isdigit() and c['name'].isascii():
+        if int_labels and numeral(c['name']):
             return int(c['name'])
         return c['name']
     if source == 'df':
